@@ -131,13 +131,7 @@ func ZZC19(n int) {
 		zzv.Cover("facade-route-reached")
 		zzv.Assert(oa.pattern == ob.pattern && oa.allow == ob.allow, "pattern-or-allow-differs-from-the-desugared-table")
 		zzv.Assert(wa.h.Get("Allow") == wb.h.Get("Allow"), "allow-header-differs-from-the-desugared-table")
-		same := oa.params.Count() == ob.params.Count()
-		oa.params.Range(func(k, v string) {
-			if x, ok := ob.params.Get(k); !ok || x != v {
-				same = false
-			}
-		})
-		zzv.Assert(same, "params-differ-from-the-desugared-table")
+		zzv.Assert(oa.params.equal(ob.params), "params-differ-from-the-desugared-table")
 	}
 	zzv.Assert(zzSameChain(oa.chain, ob.chain), "middleware-order-differs-from-the-desugared-table")
 	zzExpectDispatch("facade", m, path, method, oa)
